@@ -91,6 +91,12 @@ def check(rep, tier):
     for hi in range(nhist):
         var = hi % 2 == 0
         cfg = base_cfg(rng, var)
+        # always: three scripted histories (built - re-shaped to the same vial count - run; run - configuration re-declared - run; both)
+        script = {0: ["hint", "reshape", "run"], 1: ["run", "config", "run"], 2: ["build", "seed", "reshape", "config", "hshelf", "run"]}.get(hi)
+        if script and "reshape" in script:
+            cfg["shape"] = (2, 4, 1)
+            if not np.isscalar(cfg["k"]["s0"]):
+                cfg["k"]["s0"] = np.linspace(15.0, 25.0, 8)
         if cfg["shape"][2] > 1:
             var = False        # pallets have no shelf term: no random vector
         key = (cfg["arr"], cfg["shape"], var, repr(np.asarray(cfg["k"]["s0"]).tolist()), cfg["seed_v"])       # everything the reference run depends on
@@ -108,11 +114,11 @@ def check(rep, tier):
                 S = fr.build(cfg, storeStates=store)
                 if isinstance(store, str) and "random" in store:
                     coq_ops.append("RecordRandom %s" % zlit(int(store.split("_")[-1])))
-                nops = rng.randint(1, 8)
+                nops = rng.randint(1, 8) if not script else len(script)
                 for oi in range(nops):
                     o = rng.choice(["seed", "seed", "seedv", "hshelf", "hint", "build", "run", "run", "reshape", "config"]) if oi < nops - 1 else "run"
-                    if hi < 2 and nops >= 3 and oi == nops - 2:
-                        o = "config"          # always: some histories re-declare the configuration just before the last run
+                    if script:
+                        o = script[oi]
                     if o == "config":
                         # the configuration re-declared on the same object through the public configPath setter (other arrangement, or another vial
                         # height): configuration of the NEXT run (SetConfig in model/FlakeObj.v: cached matrices and shelf vector dropped)
@@ -201,11 +207,14 @@ def check(rep, tier):
     for (how, pool) in combos:
         for var in (True, False):
             cfg = base_cfg(rng, var)
-            while (how == "sync" or (how == "async" and pool and pool > 1)) and cfg["shape"][2] > 1:
+            single = (how, pool) in (("sequential", None), ("async", 1)) and var == (how == "async")      # always: single-repetition studies
+            while (single or how == "sync" or (how == "async" and pool and pool > 1)) and cfg["shape"][2] > 1:
                 cfg = base_cfg(rng, var)          # the parallel modes with several workers are always exercised (flat shelf)
             if cfg["shape"][2] > 1:
                 continue
             Nrep = rng.randint(1, 12) if tier != "quick" else rng.choice([1, 4, 7])
+            if single:
+                Nrep = 1
             if how == "sync":
                 Nrep = max(Nrep, 4)               # several workers writing into the shared result dict (reverse order, impl.adversarial_pool)
             if how == "async" and pool and pool > 1:
